@@ -877,6 +877,18 @@ def c18_transition(ctx: Ctx) -> List[Violation]:
             ctx.cov["c18:grant_while_another_keeps_waiting"] += 1
             if int(sb.enqueue_time) // 86400 != int(sa.enqueue_time) // 86400:
                 ctx.cov["c18:queue_spans_midnight"] += 1
+            # the same judgement by the order of arrival the harness itself observed (who was seen in this queue after which step):
+            # the stamp the library keeps is the field its own queue logic sorts on, so an oracle resting on it alone cannot see a
+            # vehicle that carries an older stamp into a queue it joined later
+            from .w_fifo import observed_rank
+
+            rank = observed_rank(ctx.hv_pre, sa.station_id, sa.charger_id)
+            if rank is not None and a in rank and b in rank:
+                ctx.cov["c18:judged_by_observed_arrival"] += 1
+                if rank[b] < rank[a] and not int(sb.enqueue_time) < int(sa.enqueue_time):
+                    out.append(
+                        Violation("C18", "overtaken", (sa.charger_id, "observed_arrival_order"), f"{a} was granted the {sa.charger_id} plug at {sa.station_id} while {b}, seen waiting in that queue {rank[a] - rank[b]} arrival(s) earlier, keeps waiting (the stamps say {a}: {int(sa.enqueue_time)}, {b}: {int(sb.enqueue_time)})")
+                    )
             if int(sb.enqueue_time) < int(sa.enqueue_time):
                 out.append(
                     Violation("C18", "overtaken", (sa.charger_id,) + (("by_driver_instruction", instructed[a]["instruction_type"]) if by_driver else ()), f"{a} (queued at {int(sa.enqueue_time)}) was granted the {sa.charger_id} plug at {sa.station_id} while {b}, queued since {int(sb.enqueue_time)}, keeps waiting" + (f" (through its own driver's {instructed[a]['instruction_type']})" if by_driver else ""))
